@@ -12,13 +12,16 @@ mod verif_c19_writer {
 
     //@include pkt_model.rs
 
-    /// payload lengths are symbolic up to 4 GiB: a payload is a `Bytes` whose pointer is valid for 8 bytes and whose
-    /// LENGTH is symbolic.  None of the functions under contract reads payload bytes (they queue, clone and hand the
-    /// slice on; the packet model reads at most 8 bytes of a write of <= 8 bytes) -- if one did, CBMC's pointer
-    /// checks would fail the harness, so the trick cannot hide anything.
+    /// payload lengths are symbolic up to 4 GiB: a payload is a `Bytes` over a fresh (uninitialised) allocation of
+    /// symbolic size.  None of the functions under contract reads payload bytes (they queue, clone and hand the
+    /// slice on); "unchanged" is identity of (pointer, length).
     const DMAX: usize = 1 << 32;
-    static BIG: [u8; 8] = [0; 8];
-    static BIG2: [u8; 8] = [0; 8];
+    fn symbolic_len_slice(n: usize) -> &'static [u8] {
+        unsafe {
+            let p = std::alloc::alloc(std::alloc::Layout::from_size_align_unchecked(if n == 0 { 1 } else { n }, 1));
+            core::slice::from_raw_parts(p, n)
+        }
+    }
 
     /// stub for `ArcSendWakers::wake_all_by` (BTreeMap walk over the per-path wakers: outside Kani; waking the
     /// sending task is C16's matter and listed unverified there)
@@ -60,15 +63,15 @@ mod verif_c19_writer {
     }
 
     /// an arbitrary payload: symbolic length <= DMAX over one of two static buffers; (bytes, pointer, length)
-    fn any_payload_in(buf: &'static [u8; 8]) -> (Bytes, *const u8, usize) {
+    fn any_payload_in(_tag: u8) -> (Bytes, *const u8, usize) {
         let n: usize = kani::any();
         kani::assume(n <= DMAX);
-        let b = Bytes::from_static(unsafe { core::mem::transmute::<(*const u8, usize), &'static [u8]>((buf.as_ptr(), n)) });
+        let b = Bytes::from_static(symbolic_len_slice(n));
         let p = b.as_ptr();
         (b, p, n)
     }
     fn any_payload() -> (Bytes, *const u8, usize) {
-        any_payload_in(&BIG)
+        any_payload_in(1)
     }
 
     fn outgoing_with(queue: VecDeque<Bytes>) -> DatagramOutgoing {
@@ -170,7 +173,7 @@ mod verif_c19_writer {
         let (first, p1, n1) = any_payload();
         let o = outgoing_with(VecDeque::from([first]));
         let w = DatagramWriter { writer: o.0.clone(), max_datagram_frame_size: 1 + DMAX };
-        let (second, p2, n2) = any_payload_in(&BIG2);
+        let (second, p2, n2) = any_payload_in(2);
         assert!(w.send_bytes(second).is_ok(), "C19.writer.send.sup.fits");
         let g = o.0.lock().unwrap();
         let q = &g.as_ref().unwrap().datagrams;
